@@ -587,6 +587,12 @@ _IT = "src/sedpack/io/itertools/itertools.py"
 _DI = "src/sedpack/io/dataset_iteration.py"
 _LPF = "src/sedpack/io/itertools/lazy_pool.py"
 SELFTESTS = [
+    dict(rule="C14.config", name="tfrec-width-number-of-shards", expect="fire", path=_DI,
+         old="            cycle_length=file_parallelism if shuffle else 1,",
+         new="            cycle_length=(file_parallelism or len(shard_paths)) if shuffle else 1,"),
+    dict(rule="C14.config", name="tfrec-width-min-twin", expect="silent", path=_DI,
+         old="            cycle_length=file_parallelism if shuffle else 1,",
+         new="            cycle_length=(file_parallelism or 1) if shuffle else 1,"),
     dict(rule="C14.rust-release", name="handle-dropped-without-exit", expect="fire", path=_DI,
          old="        yield from self._single_iter()\n        while self._repeat:",
          new="        self._rust_iter = None\n        yield from self._single_iter()\n        while self._repeat:"),
